@@ -226,6 +226,11 @@ ENCODINGS = {
 
 # ------------------------------------------------------------------ run
 def run(ctx):
+    # detector objects are independent of one another (a consequence of "the outputs are a function of the detector's own
+    # parameters and history"): solo trace = trace when a second object of the class is updated alternately (impl/zoo.py)
+    from impl import zoo as _zoo
+    for _f in _zoo.isolation_failures(ctx, ['ADWIN', 'ADWINAccuracy']):
+        ctx.fail(signature={"clause": "detector-objects-independent"}, **_f)
     from menelaus.change_detection import adwin as adwin_mod
     from menelaus.concept_drift import adwin_accuracy as acc_mod
     rng = np.random.default_rng(ctx.seed)
